@@ -255,6 +255,9 @@ def check(run):
         full = render(m, target)
         cp = ConfigParser(io.StringIO(full))
         filters = [(rng.random() < 0.5, species_set(rng, m, allow_empty=False)) for _ in range(rng.randint(2, 4))] + [(True, [])]
+        # every other sequence goes through ONE Configuration object (round-9 seed C13_12: tabulations cached on the Configuration, keyed by the parser - and a view
+        # hashes like the parser it wraps): the object may be used for any number of views
+        shared = Configuration() if rng.random() < 0.5 else None
         for step, (exclude, S) in enumerate(filters):
             edited = render(m, target, keep_pred(exclude, S))
             oc_e, out_e = impl.outcome_of(lambda: impl.config_tabulate(edited))
@@ -262,10 +265,10 @@ def check(run):
             def go():
                 v = FilteredConfigParser(cp, exclude=S) if exclude else FilteredConfigParser(cp, include=S)
                 buf = io.StringIO()
-                Configuration().read_from_parser(v).write(buf)
+                (shared or Configuration()).read_from_parser(v).write(buf)
                 return buf.getvalue()
             oc_f, out_f = impl.outcome_of(go)
-            run.case(key=("e2e-seq", full, step, exclude, tuple(S)), kind="end-to-end-view-sequence/%s" % target)
+            run.case(key=("e2e-seq", full, step, exclude, tuple(S), shared is not None), kind="end-to-end-view-sequence/%s%s" % (target, "/one-Configuration" if shared else ""))
             run.traces += 1
             if not ((oc_e == oc_f) and (oc_e != "ok" or out_e == out_f)):
                 nseq += 1
